@@ -3878,6 +3878,14 @@ static Token *function(Token *tok, Type *basety, VarAttr *attr) {
   char *name_str = get_ident(ty->name);
 
   Obj *fn = find_func(name_str);
+
+  // An object of that name at file scope is something else.
+  if (!fn && !scope->next) {
+    VarScope *vs = hashmap_get(&scope->vars, name_str);
+    if (vs && vs->var && vs->var->ty->kind != TY_FUNC)
+      error_tok(ty->name, "redeclared as a different kind of symbol");
+  }
+
   if (fn) {
     // Redeclaration
     if (!fn->is_function)
@@ -4015,6 +4023,9 @@ static Token *global_variable(Token *tok, Type *basety, VarAttr *attr) {
     // An object may have any number of tentative definitions
     // but only one definition with an initializer.
     VarScope *prev = find_var(ty->name);
+    if (!scope->next && prev && prev->var && prev->var->ty->kind == TY_FUNC &&
+        prev->var != builtin_alloca)
+      error_tok(ty->name, "redeclared as a different kind of symbol");
     if (equal(tok, "=") && prev && prev->var && !prev->var->is_function &&
         !prev->var->is_local && prev->var->is_definition && !prev->var->is_tentative)
       error_tok(ty->name, "redefinition of '%s'", prev->var->name);
